@@ -29,6 +29,7 @@ RULE = (
     "non-trivial = the compared left-hand side has a non-zero entry"
 )
 ASSUMPTIONS = [
+    "a sub-lattice (PTO 1, four schemes) crosses R1-R4 with TMC modes 1 and 3, non-canonical projectiles and five cross-section kinds (y = 0.4): all are linear in the structure functions, so the partitions must survive them",
     "grid G6, x in {0.01, 0.0316, 0.3(1+1e-9), 0.8}; Q2 in {2,4,30,1e5} (ZM: nf=3..6) ",
     "R1 is demanded in the form total = light + sum over the flavours that are massive in that scheme (h > NfFF); for NfFF>=4 the lighter 'heavy' observables are sub-parts of light by design and adding them would double count",
     "entries that are non-finite on both sides (N3LO massive grids, C16 known finding) are counted, not flagged; one-sided non-finite entries are violations",
@@ -66,6 +67,23 @@ def states(tier, seed):
         if rl == "R4":
             c["heavyness"] = "total"
         out.append(c)
+    # target-mass corrections, non-canonical projectiles and cross sections: all linear in the structure functions, so every partition must survive them
+    for (kind, proc, proj), sc, extra in itertools.product(
+        [("F2", "NC", "electron"), ("F3", "CC", "neutrino"), ("g1", "NC", "electron"), ("F2", "CC", "antineutrino"), ("F3", "CC", "electron"), ("F3", "NC", "positron"), ("FL", "CC", "positron"),
+         ("XSHERANC", "NC", "positron"), ("XSCHORUSCC", "CC", "antineutrino"), ("XSHERACC", "CC", "electron"), ("XSNUTEVNU", "CC", "neutrino"), ("g5", "NC", "electron")],
+        ["FFNS3", "FFNS4", "FONLL-FFNS4", "ZM-VFNS"], [{}, {"tmc": 1}, {"tmc": 3, "target": "iron"}],
+    ):
+        isxs = kind.startswith("XS") or kind == "g5"
+        if not extra and not isxs and proj == cards.CANONICAL_PROJECTILE[proc]:
+            continue  # already in the main lattice
+        c = dict({"rel": "R12", "kind": kind, "process": proc, "pto": 1, "scheme": sc, "target": "proton", "Q2": 30.0, "projectile": proj}, **extra)
+        if isxs:
+            c["y"] = 0.4
+        out.append(c)
+        if sc.startswith("FONLL"):
+            out.append(dict(c, rel="R3", heavyness="total"))
+        if proc == "NC" and sc in ("ZM-VFNS", "FFNS3") and not (extra.get("tmc") == 3):
+            out.append(dict(c, rel="R4", heavyness="total"))
     # R3
     fs = FONLL_SCHEMES if tier == "thorough" else ["FONLL-FFNS3", "FONLL-FFNS4", "FONLL-FFN03"]
     for kind, proc, pto, sc, hv, q2 in itertools.product(SF_KINDS, PROCS, ptos, fs, ["total", "charm", "bottom", "light"], q2s):
@@ -87,8 +105,8 @@ def states(tier, seed):
     return out
 
 
-def _kins(q2):
-    return [cards.kin(x, q2) for x in XS]
+def _kins(q2, y=None):
+    return [cards.kin(x, q2, y) for x in XS]
 
 
 def _fp(cell, **kw):
@@ -118,7 +136,7 @@ def _r12(cell):
     names = {h: cards.obsname(kind, h) for h in ["total", "light", "charm", "bottom", "top"]}
     c = dict(cell)
     c["target"] = TARGETS[cell["target"]]
-    out, status = rel.try_run(c, {n: _kins(cell["Q2"]) for n in names.values()})
+    out, status = rel.try_run(c, {n: _kins(cell["Q2"], cell.get("y")) for n in names.values()})
     if status != "ok":
         return _result([], False, status, 1, {"n_" + status.split(":")[0]: 1})
     fns, nfff = cards.SCHEMES[cell["scheme"]]
@@ -150,7 +168,7 @@ def _r3(cell):
     for part in ("full", "massless", "massive"):
         c = dict(cell)
         c["theory"] = dict(cell.get("theory", {}), FONLLParts=part)
-        out, status = rel.try_run(c, {name: _kins(cell["Q2"])})
+        out, status = rel.try_run(c, {name: _kins(cell["Q2"], cell.get("y"))})
         if status != "ok":
             return _result([], False, status, 1, {"n_" + status.split(":")[0]: 1})
         outs[part] = out
@@ -178,7 +196,7 @@ def _r4(cell):
     for ch in ["d", "u", "s", "c", "b", "t", None, "all"]:
         c = dict(cell)
         c["obscard"] = dict(cell.get("obscard", {}), NCPositivityCharge=ch)
-        out, status = rel.try_run(c, {name: _kins(cell["Q2"])})
+        out, status = rel.try_run(c, {name: _kins(cell["Q2"], cell.get("y"))})
         if status != "ok":
             return _result([], False, status, 1, {"n_" + status.split(":")[0]: 1})
         outs[ch] = out
